@@ -13,7 +13,9 @@ Definition file_of_sx (x : sx) : string * bool * junit :=
 (* the two passes of `coca analysis` over a directory *)
 Definition run_passes (files : list (string * bool * junit)) : list ds * list ds :=
   let selected := get_files_with_filter java_code_file_filter (map fst files) in
-  let units := map snd (List.filter (fun f => str_mem (fst (fst f)) selected) files) in
+  (* a selected file that declares no type (an empty .java file, package-info.java) is walked by a listener of its own
+     whose class body is never left: it contributes no entry to either pass and its state dies with the listener *)
+  let units := map snd (List.filter (fun f => str_mem (fst (fst f)) selected && negb (String.eqb (u_name (snd f)) "")) files) in
   let idents := snd (ident_files istate0 units) in
   let names := map ds_full_name idents in
   (idents, snd (analysis_files fstate0 names units)).
